@@ -101,6 +101,13 @@ add("C08", "exploration", "DESIGN.md §2 C08",
     "Agreement with a model written by the same reader of the manual; sampled.",
     "generator stays inside what the manual defines (see evidence assumptions); stdlib mimetypes tables trusted")
 
+add("C09", "exploration", "DESIGN.md §2 C09",
+    "Model-based testing: Hypothesis gophermap line grammar x depth x directory/file form x protocols; oracle = reference "
+    "reading of the gophermap per the manual, plus equality of normalised entries across protocols",
+    "8k (quick) / 150k (thorough) gophermaps of up to 15 lines; every line's type, description, selector, host and "
+    "port defaults are compared with the model and a second protocol must show the same entries. Sampled.",
+    "well-formed gophermaps only (type character and non-empty description on link lines)")
+
 NOT_APPLICABLE = []
 
 
